@@ -1081,6 +1081,9 @@ fn main() {
     let states: Mutex<HashSet<u64>> = Mutex::new(HashSet::new());
     let traces: Mutex<BTreeSet<String>> = Mutex::new(BTreeSet::new());
     let audited = AtomicU64::new(0);
+    // reproducible model mispredictions in states where the oracle has nothing to say (e.g. the call returned Err, so the
+    // property makes no claim): they must not hide a violation found on another schedule, and they are never a verdict
+    let stalls: Mutex<Vec<String>> = Mutex::new(Vec::new());
     let total_exec = AtomicU64::new(0);
     let exhaustive = std::sync::atomic::AtomicBool::new(true);
     // executions are latency-bound (refill delays, reconnect back-off), so two lanes of configurations run side by side
@@ -1161,7 +1164,17 @@ fn main() {
                     rr.violation(&k, &w, json!({"leg":"order","cfg":cfg.json(),"choices":ch.choices()}));
                     Err(w)
                 }
-                Err(Fail::Stuck(e)) => vcore::machinery_error(&format!("cfg {} choices {:?}: {e}", cfg.json(), ch.choices())),
+                Err(Fail::Stuck(e)) => {
+                    rr.eval(1);
+                    rr.counters.add("model_mispredictions_without_claim", 1);
+                    let msg = format!("cfg {} choices {:?}: {e}", cfg.json(), ch.choices());
+                    let mut g = stalls.lock().unwrap();
+                    g.push(msg);
+                    if g.len() > 40 {
+                        vcore::machinery_error(&format!("more than 40 model mispredictions, first: {}", g[0]));
+                    }
+                    Ok(())
+                }
             }
         });
         if !res.divergences.is_empty() {
@@ -1195,6 +1208,16 @@ fn main() {
     r.set_rule("executions containing a connection kill or a node addition in which at least one request frame was checked against a single required keyspace");
     r.assume("client-internal task scheduling is whatever the OS produces (engine E-MOCK); the oracle holds under every client schedule");
     r.assume("default step = release the first parked action in (node, connection) order, else start the next call; every other enabled action costs one deviation");
+    {
+        let g = stalls.lock().unwrap();
+        if !g.is_empty() {
+            r.note("model_mispredictions", json!(g.iter().take(5).collect::<Vec<_>>()));
+            if r.violation_count() == 0 {
+                // no schedule violated the property, but the causal model was wrong somewhere: not a verdict
+                vcore::machinery_error(&format!("{} model misprediction(s) and no violation; first: {}", g.len(), g[0]));
+            }
+        }
+    }
     if r.violation_count() == 0 && traces.lock().unwrap().len() < 2 {
         vcore::machinery_error("vacuous: fewer than 2 distinct step sequences");
     }
